@@ -9,12 +9,12 @@ from checks import stanza_common as SC, stack_common as ST
 
 PROPERTY = "C16"
 LEVEL = "model_checking"
-CODE = ["yowsup/layers/network/layer.py:YowNetworkLayer.*", "yowsup/layers/auth/layer_authentication.py", "yowsup/layers/interface/interface.py:onStreamError/onConnected/onDisconnected/connect/disconnect",
+CODE = ["yowsup/layers/noise/layer.py:on_auth/on_disconnected/_in_handshake/send/receive/_flush_incoming_buffer/on_handshake_finished", "yowsup/layers/network/layer.py:YowNetworkLayer.*", "yowsup/layers/auth/layer_authentication.py", "yowsup/layers/interface/interface.py:onStreamError/onConnected/onDisconnected/connect/disconnect",
         "yowsup/layers/protocol_iq/layer.py:waitPong/gotPong/onAuthed/stop_thread/YowPingThread.run", "yowsup/layers/axolotl/layer_base.py + layer_control.py:on_connected/on_disconnected",
         "yowsup/stacks/yowstack.py:execDetached/loop", "yowsup/layers/__init__.py:emitEvent/broadcastEvent"]
 BOUNDS = {"quick": "all event histories of length <= 4 over {connect request, connected, socket error, peer close, disconnect request, success, failure, stream error (conflict/ack/other), ping tick, pong} "
-                   "x reconnect option on/off (guards: events only in states where they can occur)", "thorough": "histories of length <= 8 (10 after an establishment prefix, 11 after login)"}
-OUTSIDE = ["the Noise handshake and transport (C04, not applicable)", "real sockets and real threads (dispatcher double; keep-alive thread body run inline per tick)", "histories longer than the bound"]
+                   "x reconnect option on/off x unconfirmed prekeys at start (passive login, key upload, reboot) (guards: events only in states where they can occur); the same with the real noise layer and handshake-done/-failed events", "thorough": "histories of length <= 8 (10 after an establishment prefix, 11 after login)"}
+OUTSIDE = ["the cryptographic Noise handshake and transport (C04, not applicable; the noise LAYER's state handling is included with protocol/worker doubles)", "real sockets and real threads (dispatcher double; keep-alive thread body run inline per tick)", "histories longer than the bound"]
 ASSUMPTIONS = ["the stack's loop runs after every event (detached events are delivered then)", "a dispatcher reports disconnect() by calling onDisconnected (as the asyncore and socket dispatchers do)"]
 EXPLANATION = "solver-driven bounded exploration of event histories on the real lifecycle layers against a ghost model of the statement"
 
